@@ -3360,6 +3360,10 @@ class Session(object):
                         self._lock.acquire()
                         return False
                     self._lock.acquire()
+                if self.is_shutdown:
+                    # the session was shut down while the pool was being created
+                    new_pool.shutdown()
+                    return False
                 self._pools[host] = new_pool
 
             log.debug("Added pool for host %s to session", host)
